@@ -1,12 +1,487 @@
 package checks
 
 import (
+	"slices"
+	"strings"
+
 	"mvdan.cc/sh/v3/syntax"
 
 	"verif/mc/synt"
 )
 
+// Classification of non-idempotent formattings (property C02).
+//
+// Every class is the conjunction of
+//   - a syntactic shape of the INPUT (a predicate on Parse(src)),
+//   - a condition on the configuration, and
+//   - what changes between the first (P1) and the second (P2) formatting.
+//
+// A failure matching no class stays an unclassified VIOLATION.
+type c02Class struct {
+	name string
+	// cfg restricts the configurations (nil = any).
+	cfg func(cfg synt.Config, simplify bool) bool
+	// shape is evaluated on the parsed input.
+	shape func(x *c02Input) bool
+	// change is evaluated on the two outputs.
+	change func(x *c02Input, p1, p2 string) bool
+}
+
+type c02Input struct {
+	src  string
+	lang syntax.LangVariant
+	f    *syntax.File
+	cfg  synt.Config
+}
+
+var c02Classes = []c02Class{
+	{
+		// Parser: selectClause (unlike forClause) does not move the comments
+		// seen before `do` to the select statement, so they become leading
+		// comments of the first body statement with a position before `do`.
+		// The printer emits them after that statement ("do a # c"); on the
+		// second pass they are ordinary trailing comments, which force the
+		// body onto its own lines.
+		name:  "select-comment-before-do",
+		cfg:   func(cfg synt.Config, _ bool) bool { return !cfg.Minify },
+		shape: func(x *c02Input) bool { return c02SelectCommentBeforeDo(x.f, false) },
+		change: func(_ *c02Input, p1, p2 string) bool {
+			// only the layout changes (whitespace, escaped newlines)
+			return slices.Equal(c02Tokens(p1), c02Tokens(p2))
+		},
+	},
+	{
+		// Same parser defect, body statement is a bare `time`: the first
+		// formatting prints "time # c", and the parser drops a comment that
+		// follows a bare `time` (C05 class comment-after-time-lost), so the
+		// second formatting additionally loses the comment.
+		name:  "select-comment-before-do-lost-after-bare-time",
+		cfg:   func(cfg synt.Config, _ bool) bool { return !cfg.Minify },
+		shape: func(x *c02Input) bool { return c02SelectCommentBeforeDo(x.f, true) },
+		change: func(x *c02Input, p1, p2 string) bool {
+			t1, t2 := c02Tokens(c02DropComments(p1)), c02Tokens(p2)
+			if x.cfg.Single {
+				// "do time # c\ndone" becomes "do time; done"
+				t2 = c02Tokens(strings.ReplaceAll(p2, "time; done", "time done"))
+			}
+			return strings.Contains(p1, "time #") && !strings.Contains(p2, "#") && slices.Equal(t1, t2)
+		},
+	},
+	{
+		// Parser: `coproc a=1 b=2 c` takes `a=1` for the coproc name, then
+		// prepends it to the ARGUMENTS of the call `b=2 c`; the printer prints
+		// assignments before arguments, giving "coproc b=2 a=1 c", which then
+		// parses differently again (b=2 the "name", a=1 the assignment).
+		name:  "coproc-leading-assignment-taken-as-name",
+		shape: func(x *c02Input) bool { return c02CoprocAssignAsArg(x.f) },
+		change: func(_ *c02Input, p1, p2 string) bool {
+			l1, l2 := strings.Split(p1, "\n"), strings.Split(p2, "\n")
+			if len(l1) != len(l2) {
+				return false
+			}
+			for i := range l1 {
+				if l1[i] == l2[i] {
+					continue
+				}
+				// the words after coproc are permuted, nothing else
+				a, b := strings.Fields(l1[i]), strings.Fields(l2[i])
+				if !strings.Contains(l1[i], "coproc") || slices.Equal(a, b) {
+					return false
+				}
+				slices.Sort(a)
+				slices.Sort(b)
+				if !slices.Equal(a, b) {
+					return false
+				}
+			}
+			return true
+		},
+	},
+	{
+		// Printer.closingParen chooses between "))" and ") )" from the SOURCE
+		// lines of the two parentheses of a subshell / command substitution
+		// whose only statement ends with ")" (openPos.Line == closePos.Line),
+		// not from the printed layout. When the printed layout differs from
+		// the source's (the inner statement is broken over several lines by
+		// the printer, or joined onto one line by Minify), the second pass
+		// decides differently.
+		name:  "nested-closing-parens-space-from-source-lines",
+		shape: func(x *c02Input) bool { return c02NestedCloseParen(x.f) },
+		change: func(_ *c02Input, p1, p2 string) bool {
+			return c02JoinCloseParens(p1) == c02JoinCloseParens(p2)
+		},
+	},
+	{
+		// Printer.command (Subshell) writes the space of "( (" as soon as the
+		// inner statement starts with "(" on the line of the outer "(", even
+		// when nestedStmts then decides to break the line: "( " + newline. The
+		// second pass sees the inner statement on the next line and writes no
+		// space.
+		name:  "nested-opening-parens-trailing-space",
+		cfg:   func(cfg synt.Config, _ bool) bool { return !cfg.Single },
+		shape: func(x *c02Input) bool { return c02NestedOpenParenSameLine(x.f) },
+		change: func(_ *c02Input, p1, p2 string) bool {
+			return strings.Contains(p1, "( \n") && strings.ReplaceAll(p1, "( \n", "(\n") == p2
+		},
+	},
+	{
+		// Simplify: removeNegateTest knows == and != but not the short form =,
+		// and the walk rewrites = into == only after the enclosing negation
+		// was inspected: `[[ ! a = b ]]` needs two runs of shfmt -s.
+		name:  "simplify-negated-short-match-two-steps",
+		cfg:   func(_ synt.Config, simplify bool) bool { return simplify },
+		shape: func(x *c02Input) bool { return c02NegatedMatch(x.f, syntax.TsMatchShort) },
+		change: func(x *c02Input, p1, p2 string) bool {
+			f1, err := synt.Parse(p1, x.lang)
+			return err == nil && c02NegatedMatch(f1, syntax.TsMatch) && strings.Contains(p2, "!=")
+		},
+	},
+	{
+		// A command substitution (in practice: backquotes) whose closing
+		// delimiter is on the line where the last here-document of its last
+		// statement ends: nestedStmts sees no line break before the closing
+		// delimiter and keeps "$(cmd <<EOF" on one line, but the pending
+		// here-document forces ")" onto its own line, so the second pass does
+		// see the break and moves the statement to its own line as well.
+		name:  "heredoc-ends-on-closing-line-of-cmdsubst",
+		cfg:   func(cfg synt.Config, _ bool) bool { return !cfg.Single && !cfg.Minify },
+		shape: func(x *c02Input) bool { return c02HeredocEndsAtClose(x.f) },
+		change: func(_ *c02Input, p1, p2 string) bool {
+			// only white space is added (a line break and indentation after "$(")
+			return strings.Count(p2, "\n") > strings.Count(p1, "\n") &&
+				strings.Join(strings.Fields(p1), "") == strings.Join(strings.Fields(p2), "")
+		},
+	},
+	{
+		// SingleLine: a here-document inside a command substitution inside a
+		// here-document BODY. The closing ")" does not flush the pending inner
+		// here-document in single-line mode, and the rest of the outer body is
+		// written raw, so the inner body lands after the outer delimiter: P1
+		// is already a different program (also a C01 failure), and printing it
+		// again moves the text once more.
+		name:  "singleline-heredoc-in-cmdsubst-in-heredoc-body",
+		cfg:   func(cfg synt.Config, _ bool) bool { return cfg.Single },
+		shape: func(x *c02Input) bool { return c02HeredocInHeredocBody(x.f) },
+		change: func(x *c02Input, p1, p2 string) bool {
+			f1, err := synt.Parse(p1, x.lang)
+			if err != nil {
+				return false
+			}
+			o := synt.DumpOpts{Cosmetic: true}
+			return synt.Dump(f1, o) != synt.Dump(x.f, o)
+		},
+	},
+	{
+		// SingleLine: `cmd <<EOF # comment` followed by another statement,
+		// with a command substitution in the body. P1 is "cmd <<EOF; # comment";
+		// on the second pass the comment, now pending for the NEXT statement,
+		// is flushed at the first newline printed, which is inside the command
+		// substitution of the here-document body.
+		name:  "singleline-heredoc-trailing-comment-moves-into-body",
+		cfg:   func(cfg synt.Config, _ bool) bool { return cfg.Single },
+		shape: func(x *c02Input) bool { return c02HeredocTrailingComment(x.f) != "" },
+		change: func(x *c02Input, p1, p2 string) bool {
+			com := c02HeredocTrailingComment(x.f)
+			on := func(p string) bool {
+				for _, l := range strings.Split(p, "\n") {
+					if strings.Contains(l, "<<") && strings.Contains(l, com) {
+						return true
+					}
+				}
+				return false
+			}
+			return on(p1) && !on(p2) && strings.Contains(p2, com)
+		},
+	},
+}
+
 // c02Classify names the family of a non-idempotent formatting, or "".
 func c02Classify(src string, lang syntax.LangVariant, cfg synt.Config, simplify bool, p1, p2 string) string {
+	f, err := synt.Parse(src, lang)
+	if err != nil {
+		return ""
+	}
+	x := &c02Input{src: src, lang: lang, f: f, cfg: cfg}
+	for _, cl := range c02Classes {
+		if cl.cfg != nil && !cl.cfg(cfg, simplify) {
+			continue
+		}
+		if cl.shape(x) && cl.change(x, p1, p2) {
+			return cl.name
+		}
+	}
 	return ""
+}
+
+// c02Tokens is the text split at whitespace, with escaped newlines removed.
+func c02Tokens(s string) []string {
+	return strings.Fields(strings.ReplaceAll(s, "\\\n", " "))
+}
+
+// c02DropComments removes " # ..." / "\t# ..." trailing comments (good enough
+// for the outputs of the one class that uses it).
+func c02DropComments(s string) string {
+	lines := strings.Split(s, "\n")
+	for i, l := range lines {
+		if j := strings.Index(l, " #"); j >= 0 {
+			lines[i] = l[:j]
+		} else if j := strings.Index(l, "\t#"); j >= 0 {
+			lines[i] = l[:j]
+		}
+	}
+	return strings.Join(lines, "\n")
+}
+
+func c02JoinCloseParens(s string) string {
+	for strings.Contains(s, ") )") {
+		s = strings.ReplaceAll(s, ") )", "))")
+	}
+	return s
+}
+
+func c02IsHeredoc(r *syntax.Redirect) bool {
+	return r.Op == syntax.Hdoc || r.Op == syntax.DashHdoc
+}
+
+func c02HasHeredoc(n syntax.Node) bool {
+	found := false
+	syntax.Walk(n, func(n syntax.Node) bool {
+		if r, ok := n.(*syntax.Redirect); ok && c02IsHeredoc(r) {
+			found = true
+		}
+		return !found
+	})
+	return found
+}
+
+// c02SelectCommentBeforeDo: a select clause whose first body statement carries
+// a comment located before the `do` keyword. bareTime additionally requires
+// that statement to be a `time` without a command.
+func c02SelectCommentBeforeDo(f *syntax.File, bareTime bool) bool {
+	found := false
+	syntax.Walk(f, func(n syntax.Node) bool {
+		fc, ok := n.(*syntax.ForClause)
+		if !ok || !fc.Select || len(fc.Do) == 0 {
+			return !found
+		}
+		st := fc.Do[0]
+		tc, isTime := st.Cmd.(*syntax.TimeClause)
+		if bareTime != (isTime && tc.Stmt == nil) {
+			return !found
+		}
+		for _, c := range st.Comments {
+			if c.Pos().Offset() < fc.DoPos.Offset() {
+				found = true
+			}
+		}
+		return !found
+	})
+	return found
+}
+
+// c02CoprocAssignAsArg: a coproc clause without name whose call has an
+// argument located before its first assignment.
+func c02CoprocAssignAsArg(f *syntax.File) bool {
+	found := false
+	syntax.Walk(f, func(n syntax.Node) bool {
+		cc, ok := n.(*syntax.CoprocClause)
+		if !ok || cc.Name != nil || cc.Stmt == nil {
+			return !found
+		}
+		var call *syntax.CallExpr
+		syntax.Walk(cc.Stmt, func(n syntax.Node) bool { // first call of the pipeline
+			if ce, ok := n.(*syntax.CallExpr); ok && call == nil {
+				call = ce
+			}
+			return call == nil
+		})
+		if call != nil && len(call.Assigns) > 0 && len(call.Args) > 0 &&
+			call.Args[0].Pos().Offset() < call.Assigns[0].Pos().Offset() {
+			found = true
+		}
+		return !found
+	})
+	return found
+}
+
+func c02StartsWithLparen(n syntax.Node) bool {
+	switch n := n.(type) {
+	case *syntax.Stmt:
+		if n.Negated || n.Cmd == nil {
+			return false
+		}
+		return c02StartsWithLparen(n.Cmd)
+	case *syntax.BinaryCmd:
+		return c02StartsWithLparen(n.X)
+	case *syntax.Subshell, *syntax.ArithmCmd:
+		return true
+	}
+	return false
+}
+
+func c02EndsWithRparen(n syntax.Node) bool {
+	switch n := n.(type) {
+	case *syntax.Stmt:
+		if n.Background || n.Coprocess || n.Disown || len(n.Redirs) > 0 || n.Cmd == nil {
+			return false
+		}
+		return c02EndsWithRparen(n.Cmd)
+	case *syntax.BinaryCmd:
+		return c02EndsWithRparen(n.Y)
+	case *syntax.Subshell, *syntax.ArithmCmd:
+		return true
+	}
+	return false
+}
+
+// c02NestedCloseParen: a subshell or $( ) with exactly one statement, which
+// ends with ")" and no trailing comments (the inputs of closingParen's rule).
+func c02NestedCloseParen(f *syntax.File) bool {
+	found := false
+	syntax.Walk(f, func(n syntax.Node) bool {
+		var stmts []*syntax.Stmt
+		var last []syntax.Comment
+		switch n := n.(type) {
+		case *syntax.Subshell:
+			stmts, last = n.Stmts, n.Last
+		case *syntax.CmdSubst:
+			if n.TempFile || n.ReplyVar {
+				return !found
+			}
+			stmts, last = n.Stmts, n.Last
+		default:
+			return !found
+		}
+		if len(stmts) == 1 && len(last) == 0 && c02EndsWithRparen(stmts[0]) {
+			found = true
+		}
+		return !found
+	})
+	return found
+}
+
+// c02NestedOpenParenSameLine: a subshell whose first statement starts with "("
+// on the line of the subshell's own "(".
+func c02NestedOpenParenSameLine(f *syntax.File) bool {
+	found := false
+	syntax.Walk(f, func(n syntax.Node) bool {
+		if sub, ok := n.(*syntax.Subshell); ok && len(sub.Stmts) > 0 &&
+			c02StartsWithLparen(sub.Stmts[0]) && sub.Lparen.Line() == sub.Stmts[0].Pos().Line() {
+			found = true
+		}
+		return !found
+	})
+	return found
+}
+
+// c02NegatedMatch: a [[ ]] negation applied directly to a binary test with
+// the given operator.
+func c02NegatedMatch(f *syntax.File, op syntax.BinTestOperator) bool {
+	found := false
+	syntax.Walk(f, func(n syntax.Node) bool {
+		if u, ok := n.(*syntax.UnaryTest); ok && u.Op == syntax.TsNot {
+			if b, ok := u.X.(*syntax.BinaryTest); ok && b.Op == op {
+				found = true
+			}
+		}
+		return !found
+	})
+	return found
+}
+
+// c02HeredocEndsAtClose: a command substitution spanning several lines whose
+// last statement holds a here-document and ends on the line of the closing
+// delimiter.
+func c02HeredocEndsAtClose(f *syntax.File) bool {
+	found := false
+	syntax.Walk(f, func(n syntax.Node) bool {
+		cs, ok := n.(*syntax.CmdSubst)
+		if !ok || len(cs.Stmts) == 0 || len(cs.Last) > 0 {
+			return !found
+		}
+		st := cs.Stmts[len(cs.Stmts)-1]
+		if cs.Right.Line() > cs.Left.Line() && st.End().Line() == cs.Right.Line() && c02HasHeredoc(st) {
+			found = true
+		}
+		return !found
+	})
+	return found
+}
+
+// c02HeredocInHeredocBody: a here-document whose body holds a command
+// substitution that itself contains a here-document.
+func c02HeredocInHeredocBody(f *syntax.File) bool {
+	found := false
+	syntax.Walk(f, func(n syntax.Node) bool {
+		r, ok := n.(*syntax.Redirect)
+		if !ok || !c02IsHeredoc(r) || r.Hdoc == nil {
+			return !found
+		}
+		syntax.Walk(r.Hdoc, func(n syntax.Node) bool {
+			if cs, ok := n.(*syntax.CmdSubst); ok && c02HasHeredoc(cs) {
+				found = true
+			}
+			return !found
+		})
+		return !found
+	})
+	return found
+}
+
+// c02HeredocTrailingComment returns "#text" of a comment that follows a
+// here-document operator on its line, when the statement holding the
+// here-document is not the last of its list and the here-document body
+// contains a command substitution; "" otherwise.
+func c02HeredocTrailingComment(f *syntax.File) string {
+	res := ""
+	check := func(stmts []*syntax.Stmt) {
+		for i, st := range stmts {
+			if i == len(stmts)-1 || res != "" {
+				break
+			}
+			for _, r := range st.Redirs {
+				if !c02IsHeredoc(r) || r.Hdoc == nil {
+					continue
+				}
+				hasSubst := false
+				syntax.Walk(r.Hdoc, func(n syntax.Node) bool {
+					if _, ok := n.(*syntax.CmdSubst); ok {
+						hasSubst = true
+					}
+					return !hasSubst
+				})
+				if !hasSubst {
+					continue
+				}
+				for _, c := range st.Comments {
+					if c.Hash.Line() == r.OpPos.Line() && c.Hash.Offset() > r.OpPos.Offset() {
+						res = "#" + strings.TrimRight(c.Text, " \t")
+					}
+				}
+			}
+		}
+	}
+	check(f.Stmts)
+	syntax.Walk(f, func(n syntax.Node) bool {
+		switch n := n.(type) {
+		case *syntax.Block:
+			check(n.Stmts)
+		case *syntax.Subshell:
+			check(n.Stmts)
+		case *syntax.CmdSubst:
+			check(n.Stmts)
+		case *syntax.IfClause:
+			check(n.Cond)
+			check(n.Then)
+		case *syntax.WhileClause:
+			check(n.Cond)
+			check(n.Do)
+		case *syntax.ForClause:
+			check(n.Do)
+		case *syntax.CaseItem:
+			check(n.Stmts)
+		}
+		return res == ""
+	})
+	return res
 }
